@@ -296,21 +296,31 @@ def cp2k_cell(cp, a, b, c, al, be, ga):
 
 @symnp.outside_session
 def replay_lattice(which, abc, ang):
-    if which == "wien2k":
-        import phonopy.interface.wien2k as w2
-        Lm = np.array(w2._transform_axis(ang["alpha"], ang["beta"], ang["gamma"], *abc), dtype=float)
-    elif which == "cells":
-        import phonopy.structure.cells as cm
-        Lm = cm.get_cell_matrix(abc[0], abc[1], abc[2], ang["alpha"], ang["beta"], ang["gamma"])
-    else:
-        return False, "no concrete replay for the CP2K branch"
-    G = Lm @ Lm.T
-    a, b, c = abc
-    want = np.array([[a * a, a * b * np.cos(np.radians(ang["gamma"])), a * c * np.cos(np.radians(ang["beta"]))],
-                     [0, b * b, b * c * np.cos(np.radians(ang["alpha"]))], [0, 0, c * c]])
-    want = want + want.T - np.diag(want.diagonal())
-    d = float(np.abs(G - want).max())
-    return d > 1e-8, "%s: metric tensor of the lattice built from a,b,c=%s angles=%s deviates by %.3g" % (which, abc, ang, d)
+    """metric tensor of the lattice the real code builds; cos/sin are independent atoms in the solver's model, so besides the model's
+    own parameters two generic parameter sets are evaluated"""
+    import warnings
+    worst = None
+    for abc_, ang_ in ((abc, ang), ([1.0, 1.3, 1.7], {"alpha": 70.0, "beta": 80.0, "gamma": 100.0}), ([2.1, 1.1, 1.6], {"alpha": 95.0, "beta": 62.0, "gamma": 81.0})):
+        with warnings.catch_warnings():
+            warnings.simplefilter("ignore")
+            if which == "wien2k":
+                import phonopy.interface.wien2k as w2
+                Lm = np.array(w2._transform_axis(ang_["alpha"], ang_["beta"], ang_["gamma"], *abc_), dtype=float)
+            elif which == "cells":
+                import phonopy.structure.cells as cm
+                Lm = cm.get_cell_matrix(abc_[0], abc_[1], abc_[2], ang_["alpha"], ang_["beta"], ang_["gamma"])
+            else:
+                return False, "no concrete replay for the CP2K branch"
+        G = Lm @ Lm.T
+        a, b, c = abc_
+        want = np.array([[a * a, a * b * np.cos(np.radians(ang_["gamma"])), a * c * np.cos(np.radians(ang_["beta"]))],
+                         [0, b * b, b * c * np.cos(np.radians(ang_["alpha"]))], [0, 0, c * c]])
+        want = want + want.T - np.diag(want.diagonal())
+        d = float(np.abs(G - want).max())
+        if not np.isfinite(d) or d > 1e-8:
+            return True, "%s: metric tensor of the lattice built from a,b,c=%s angles=%s deviates by %.3g" % (which, list(abc_), ang_, d)
+        worst = d
+    return False, "%s: metric tensor reproduced (%.3g)" % (which, worst)
 
 
 # ------------------------------------------------------------------------------- CrossHair
